@@ -57,6 +57,8 @@ def main(argv=None):
             mod.check(run, prog)
             from . import coherence
             coherence.check(run, prog, pid)
+            from . import sigmodel
+            sigmodel.report_discrepancies(run, prog, pid)
             if args.tier == "thorough" and hasattr(mod, "thorough"):
                 mod.thorough(run, prog)
         except AnalysisError as e:
